@@ -943,7 +943,7 @@ def write_evidence(prop, tier, seed, level, coverage, assumptions, wall, nviol):
 
 C18_PLAN = {
     "quick": dict(runs=16000, storm_words=4000000, big_inputs=5, depth_chains=256, depth_max=300, scheds=4, cold=128, selftest=192, miri_light=4, miri_full=2, miri_conv=16, shadow=4000, xl_den=4000, budget=900),
-    "thorough": dict(runs=750000, storm_words=300000000, big_inputs=40, depth_chains=4096, depth_max=1100, scheds=4, cold=2048, selftest=2048, miri_light=192, miri_full=48, miri_conv=192, miri_fit=32, shadow=300000, xl_den=1500, budget=7200),
+    "thorough": dict(runs=400000, storm_words=300000000, big_inputs=40, depth_chains=4096, depth_max=1100, scheds=4, cold=2048, selftest=2048, miri_light=192, miri_full=48, miri_conv=192, miri_fit=32, shadow=200000, xl_den=1500, budget=7200),
 }
 
 
